@@ -17,6 +17,7 @@ from antismash.detection import full_hmmer, hmm_detection, nrps_pks_domains, sid
 from antismash.detection.sideloader.data_structures import ProtoclusterAnnotation, SideloadedResults, SubRegionAnnotation
 from antismash.common.hmm_rule_parser import cluster_prediction
 from antismash.common.secmet import Record
+from antismash.modules import pfam2go as pfam2go_module
 from antismash.modules import tta
 
 from mc.engine.core import Result
@@ -47,7 +48,7 @@ _REAL_RULE_NAMES = None
 def make_options(overrides=None):
     destroy_config()
     options = build_config(["--cpus", "1", "--minlength", "1"], isolated=True,
-                           modules=[DummyGenefinding, hmm_detection, tta, full_hmmer, sideloader, nrps_pks_domains])
+                           modules=[DummyGenefinding, hmm_detection, tta, full_hmmer, sideloader, nrps_pks_domains, pfam2go_module])
     update_config({"triggered_limit": False})
     if overrides:
         options = update_config(dict(overrides))
@@ -205,7 +206,7 @@ class NRPSFamily(Family):
 
     def produce(self, options):
         rec = self.prepare(options)
-        results = K.nrps_results(rec)
+        results = K.nrps_results(rec, self.spec.get("variant"))
         results.add_to_record(rec)
         return results, rec
 
@@ -270,7 +271,37 @@ class TTAFamily(Family):
         return rec
 
 
-FAMILIES = {"rules": RulesFamily, "sideload": SideloadFamily, "nrps": NRPSFamily, "hmmer": HmmerFamily, "tta": TTAFamily}
+class Pfam2GoFamily(Family):
+    """the real pfam2go module (pure Python) on records that carry PFAM domains from the HMMer family's hits"""
+    name = "pfam2go"
+
+    def prepare(self, options):
+        rec = fresh_record(self.spec)
+        hits = []
+        for gene, ident in zip([g for g in rec.get_cds_features() if len(g.translation) >= 15], ("PF00067.1", "PF00048.2", "PF99999.1")):
+            loc = gene.get_sub_location_from_protein_coordinates(1, 8)
+            hits.append(hmmer.HmmerHit(location=str(loc), label="PFtest", locus_tag=gene.get_name(), domain="dom", evalue=1e-5, score=30.0,
+                                       identifier=ident, description="a domain", protein_start=1, protein_end=8,
+                                       translation=gene.translation[1:8]))
+        hmmer.HmmerResults(rec.id, full_hmmer.MAX_EVALUE, full_hmmer.MIN_SCORE, "/nonexistent/pfam/31.0/Pfam-A.hmm", "fullhmmer",
+                           hits).add_to_record(rec)
+        return rec
+
+    def produce(self, options):
+        rec = self.prepare(options)
+        results = pfam2go_module.pfam2go.Pfam2GoResults(rec.id, pfam2go_module.pfam2go.get_gos_for_pfams(rec))
+        results.add_to_record(rec)
+        return results, rec
+
+    def regenerate(self, data, rec, options):
+        return pfam2go_module.regenerate_previous_results(data, rec, options)
+
+    def apply(self, results, rec):
+        results.add_to_record(rec)
+        return rec
+
+
+FAMILIES = {"pfam2go": Pfam2GoFamily, "rules": RulesFamily, "sideload": SideloadFamily, "nrps": NRPSFamily, "hmmer": HmmerFamily, "tta": TTAFamily}
 
 
 def objects(tier):
@@ -293,8 +324,9 @@ def objects(tier):
                 if tier == "thorough" or layout == "plain":
                     out.append(["sideload", {"circ": circ, "layout": layout, "sideload": variant}])
             if tier == "thorough" or quick_layout:
-                for fam in ("nrps", "hmmer", "tta"):
+                for fam in ("nrps", "hmmer", "tta", "pfam2go"):
                     out.append([fam, {"circ": circ, "layout": layout}])
+                out.append(["nrps", {"circ": circ, "layout": layout, "variant": "double"}])
     return out
 
 
